@@ -44,6 +44,14 @@ func presentations() []presentation {
 		{"no-space", false, func(t string) map[string]string { return map[string]string{"Authorization": "Bearer" + t} }},
 		{"token-only", false, func(t string) map[string]string { return map[string]string{"Authorization": t} }},
 		{"none", false, func(t string) map[string]string { return map[string]string{} }},
+		// piko's inter-node headers are client-settable: they buy nothing
+		{"none+forward-marker", false, func(t string) map[string]string { return map[string]string{"x-piko-forward": "true"} }},
+		{"basic+forward-marker", false, func(t string) map[string]string {
+			return map[string]string{"Authorization": "Basic " + t, "x-piko-forward": "true"}
+		}},
+		{"authorization+forward-marker", true, func(t string) map[string]string {
+			return map[string]string{"Authorization": "Bearer " + t, "x-piko-forward": "true"}
+		}},
 	}
 }
 
@@ -487,7 +495,10 @@ func init() {
 			}(kc)
 		}
 		wg.Wait()
+		replayDone := make(chan struct{})
+		go func() { c09Replay(run, &mu, &evals, &nontrivial); close(replayDone) }()
 		c09PerPort(run, &mu, &evals, &nontrivial)
+		<-replayDone
 		if c09Accepted == 0 {
 			evid.Fatal("vacuous: no probe at all was accepted (the plainly valid token is refused under every configuration: %v)", c09ValidRefused)
 		}
@@ -500,7 +511,7 @@ func init() {
 		run.Set("evaluations", evals)
 		run.Set("distinct_nontrivial", nontrivial)
 		run.Set("key_configurations", len(cfgs))
-		run.Set("rule", "per key configuration (real server.NewServer with the same auth on proxy, upstream and admin ports): (a) algorithm x signing key x tampering and the claims cross product (exp x nbf x aud x iss) on one main route per port, (b) 9 header presentations x {valid, wrong-key}, (c) every route registered on the live gin engines (+ an unregistered path) x one token per rejection class, (d) 7 layouts of independent per-port keys x main routes x token signed by {proxy key, upstream key, admin key, empty key, none}; non-trivial = probes that must be refused (401, sentinel upstream untouched)")
+		run.Set("rule", "per key configuration (real server.NewServer with the same auth on proxy, upstream and admin ports): (a) algorithm x signing key x tampering and the claims cross product (exp x nbf x aud x iss) on one main route per port, (b) 12 header presentations (incl. a client-set x-piko-forward marker) x {valid, wrong-key}, (c) every route registered on the live gin engines (+ an unregistered path) x one token per rejection class, (d) 7 layouts of independent per-port keys x main routes x token signed by {proxy key, upstream key, admin key, empty key, none}, (e) a 2s token accepted while fresh and presented again after its expiry, {tenants, no tenants} x disconnect-on-expiry {on, off}; non-trivial = probes that must be refused (401, sentinel upstream untouched)")
 		run.Set("exhaustive", true)
 		run.Assume("gin's trailing-slash redirect is not in the alphabet (a 301 from the router, no handler runs)")
 		fmt.Printf("  C09: configurations=%d probes=%d must-refuse=%d\n", len(cfgs), evals, nontrivial)
